@@ -432,6 +432,14 @@ func (g *Gen) transCall(x *Expr, env *Env) TV {
 	case "fmtany":
 		a := g.trans(x.Args[0], env)
 		return TV{"(fmt.any " + a.T + ")", SStr, types.Typ[types.String]}
+	case "as":
+		// as(x, "*pkg.Type"): view a reference (e.g. an interface value) at a concrete type
+		a := g.trans(x.Args[0], env)
+		t := g.P.lookupType(x.Args[1].Str)
+		if t == nil {
+			panic(specErr(x, "unknown type %s", x.Args[1].Str))
+		}
+		return TV{a.T, a.S, t}
 	case "ownerof":
 		// ownerof(x, "pkg.Type", "field"): the object whose embedded struct field `field` is x
 		a := g.trans(x.Args[0], env)
